@@ -712,10 +712,33 @@ def run_exh(ctx, spec):
     _S.light = False
 
 
-def _build_ds(cols, recipe):
+def _build_ds(cols, recipe, backing="dict", keep=None):
+    """backing: the same data as in-memory dict dataset, as .rtdc file, or as hierarchy child
+    of an unfiltered dict dataset (`keep` collects objects that must stay alive)."""
     import dclab
     from dclab.polygon_filter import PolygonFilter
-    ds = dclab.new_dataset({k: v.copy() for k, v in cols.items()})
+    if backing == "hdf5":
+        from vmon import boot
+        path = boot.scratch() / f"c16_{os.getpid()}_{_S.perturb}_{id(cols) % 9973}.rtdc"
+        if path.exists():
+            path.unlink()
+        with dclab.RTDCWriter(path, mode="reset") as hw:
+            hw.store_metadata({"experiment": {"sample": "c16", "run index": 1},
+                               "imaging": {"pixel size": 0.34},
+                               "setup": {"channel width": 20.0, "chip region": "channel",
+                                         "flow rate": 0.04, "medium": "water"}})
+            for k, v in cols.items():
+                hw.store_feature(k, v.copy())
+        ds = dclab.new_dataset(path)
+        if keep is not None:
+            keep.append(path)
+    elif backing == "child":
+        root = dclab.new_dataset({k: v.copy() for k, v in cols.items()})
+        ds = dclab.new_dataset(root)
+        if keep is not None:
+            keep.append(root)
+    else:
+        ds = dclab.new_dataset({k: v.copy() for k, v in cols.items()})
     cfg = ds.config["filtering"]
     cfg["enable filters"] = recipe["enable"]
     cfg["remove invalid events"] = recipe["remove_invalid_events"]
@@ -750,9 +773,27 @@ def run_ds(ctx):
         rng = ctx.rng(idx, salt=2)
         n, feats, cols, shapes, recipe = G.gen_dataset(rng, big=ctx.tier == "thorough")
         try:
-            ds = _build_ds(cols, recipe)
+            keep = []
+            backing = str(rng.choice(["dict", "dict", "hdf5", "child"]))
+            if n == 0 or any(v.dtype.kind not in "fiu" or v.ndim != 1 for v in cols.values()):
+                backing = "dict"          # (an .rtdc file cannot hold zero events)
+            ds = _build_ds(cols, recipe, backing=backing, keep=keep)
+            ctx.count(f"ds_backing[{backing}]")
             fa = np.array(ds.filter.all)
             nf = int(fa.sum())
+            if recipe["enable"] and recipe["remove_invalid_events"]:
+                # definition: with invalid-event removal no selected event has nan / inf in
+                # any scalar feature (whatever container serves the feature data)
+                inv = np.zeros(n, dtype=bool)
+                for v in cols.values():
+                    if v.dtype.kind == "f":
+                        inv |= ~np.isfinite(v)
+                ctx.check("limit.invalid_removed", not (fa & inv).any(),
+                          lambda: {"recipe": recipe, "n": n, "backing": backing,
+                                   "selected_invalid_events": np.flatnonzero(fa & inv)[:10],
+                                   "n_invalid": int(inv.sum())},
+                          message=f"{int((fa & inv).sum())} selected events hold nan/inf although "
+                                  f"'remove invalid events' is set ({backing} dataset)")
             ctx.count("ds_filters[" + "+".join(
                 [k for k, on in (("box", recipe["box"]), ("manual", recipe["manual"] is not None),
                                  ("polygon", recipe["polygon"]), ("limit", recipe["limit"]),
@@ -773,7 +814,7 @@ def run_ds(ctx):
                 Cache.clear_cache()
                 ctx.count("cache_cleared")
             # repetition after the interleaved other calls, on the same and on a rebuilt dataset
-            ds2 = _build_ds(cols, recipe)
+            ds2 = _build_ds(cols, recipe, backing=backing, keep=keep)
             same_filter = M.same_bits(np.array(ds2.filter.all), fa)
             ctx.check("limit.reproducible", same_filter,
                       lambda: {"recipe": recipe, "n": n, "all_1": fa,
